@@ -334,7 +334,8 @@ StepEv(P, mm, n) ==   \* mm.ctl already popped
     [] nd.t = "or" -> Sched(mm, <<Ev(nd.l), [k |-> "orj", r |-> nd.r]>>)
     [] nd.t = "cond" -> Sched(mm, <<Ev(nd.c), [k |-> "condj", a |-> nd.a, b |-> nd.b]>>)
     [] nd.t = "idx" -> Sched(mm, <<Ev(nd.e), Ev(nd.i), [k |-> "index"]>>)
-    [] nd.t = "sel" -> Sched(mm, <<Ev(nd.e), Lit(VStr(nd.key)), [k |-> "index"]>>)
+    [] nd.t = "sel" -> IF Len(nd.key) > MaxStringLen THEN CompErr(mm, "string_limit", n)   \* a selector is a string literal
+                       ELSE Sched(mm, <<Ev(nd.e), Lit(VStr(nd.key)), [k |-> "index"]>>)
     [] nd.t = "slice" -> Sched(mm, <<Ev(nd.e), EvOrUndef(nd.lo), EvOrUndef(nd.hi), [k |-> "slice"]>>)
     [] nd.t = "call" -> Sched(mm, <<Ev(nd.f)>> \o [i \in 1..Len(nd.args) |-> Ev(nd.args[i])]
                                    \o <<[k |-> "call", n |-> Len(nd.args), spread |-> nd.spread]>>)
